@@ -130,9 +130,14 @@ void DecodingTableBuilder::insertDecodeableSubstr(
     if (bits > TABLEBITSO)
       *ptr += (bits - TABLEBITSO);
 
+    // The symbol closes the chunk exactly. An entry describes at most 15
+    // symbols (4 bits): a sixteenth one-bit symbol opens the next chunk
+    bool closes =
+        (*ptr == TABLEBITSO) && (bits <= TABLEBITSO) && (substr->size() < 15);
+
     if ((substr->size() > 0) && (tableSubstr[index].dbits <= 1)) {
       // This substring has not been previously indexed
-      if ((*ptr == TABLEBITSO) && (bits <= TABLEBITSO)) {
+      if (closes) {
         // The encoded symbol is fully represented in
         // the current chunk
         substr->push_back(symbol);
@@ -194,7 +199,7 @@ void DecodingTableBuilder::insertDecodeableSubstr(
         substr->clear();
         lenSubstr->clear();
 
-        if ((*ptr == TABLEBITSO) && (bits <= TABLEBITSO))
+        if (closes)
           *ptr = 0;
         else {
           *ptr = bits;
